@@ -167,6 +167,7 @@ func genMemberWorkspace(r *lib.Rng) map[string]string {
 		{"local rec2 = {}", "rec2.a, rec2.b = two()", "print(rec2.a, rec2.b)"},
 		{"local deep = { l1 = { l2 = { l3 = 1 } } }", "deep.l1.l2.l3 = deep.l1.l2.l3 + 1", "print(deep.l1.l2, deep.l1)"},
 		{"local u, w = two()", "local function uses()", "  u, w = two()", "  return u + w", "end", "print(uses)"},
+		{"local level = 1", "_G.level = 5", "print(_G.level, level)", "_G.onlyg = 2", "print(_G.onlyg, onlyg)"},
 		{"local Obj = {}", "Obj.count = 0", "function Obj:inc(step)", "  self.count = self.count + step", "  local cb = function(k)", "    self.count = self.count + k", "    return self.count", "  end", "  return cb(step)", "end", "print(Obj.count, Obj)"},
 	}
 	r.Shuffle(len(blocks), func(i, j int) { blocks[i], blocks[j] = blocks[j], blocks[i] })
